@@ -233,7 +233,7 @@ theorem reachable_inv (cfg : Cfg) (name : String) (ops : List (Int × Noti))
     TInv (ops.foldl (fun t op => (t.gnmiUpdate cfg op.1 op.2).2.1) { name := name }) := by
   suffices ∀ (ops : List (Int × Noti)) (t : Target), (∀ op ∈ ops, op.2.target ≠ "") → TInv t →
       TInv (ops.foldl (fun t op => (t.gnmiUpdate cfg op.1 op.2).2.1) t) from
-    this ops _ h ⟨by simp [UniqueKeys], by simp⟩
+    this ops _ h ⟨by simp [UniqueKeys], by simp, by simp, by simp [nm], by simp⟩
   intro ops
   induction ops with
   | nil => intro t _ hi; exact hi
